@@ -388,6 +388,36 @@ theorem provider_record_changes_only_by_owner (s : State) (hk : KeysOK s) (m : M
   refine ⟨hacc, ?_⟩
   cases m <;> simp only [footprint, Footprint.empty] at hfp <;> first | exact absurd hfp id | exact ⟨rfl, hfp.symm⟩
 
+
+/-- Frame form: whatever the message, the node record of every address other than the sender is
+unchanged (`nodeUpdate`/`nodeStatus`/`nodeRegister` from `a` change at most the node record of `a`;
+all other messages change no node record). -/
+theorem node_records_of_others_unchanged (s : State) (hk : KeysOK s) (m : Msg) (b : Addr) (hb : b ≠ m.sender) :
+    getNode (deliver s m).1 b = getNode s b := by
+  by_contra hch
+  exact hb (node_record_changes_only_by_owner s hk m b hch).2.2.symm
+
+/-- Frame form for provider records. -/
+theorem provider_records_of_others_unchanged (s : State) (hk : KeysOK s) (m : Msg) (b : Addr) (hb : b ≠ m.sender) :
+    getProvider (deliver s m).1 b = getProvider s b := by
+  by_contra hch
+  exact hb (provider_record_changes_only_by_owner s hk m b hch).2.2.symm
+
+/-- A message that is not a node message changes no node record at all (purchases, session
+starts, usage reports, plan links, … leave every node record alone). -/
+theorem non_node_msg_keeps_nodes (s : State) (hk : KeysOK s) (m : Msg) (hm : isNodeMsg m = false) (b : Addr) :
+    getNode (deliver s m).1 b = getNode s b := by
+  by_contra hch
+  have := (node_record_changes_only_by_owner s hk m b hch).2.1
+  rw [hm] at this; cases this
+
+/-- A message that is not a provider message changes no provider record at all. -/
+theorem non_prov_msg_keeps_providers (s : State) (hk : KeysOK s) (m : Msg) (hm : isProvMsg m = false) (b : Addr) :
+    getProvider (deliver s m).1 b = getProvider s b := by
+  by_contra hch
+  have := (provider_record_changes_only_by_owner s hk m b hch).2.1
+  rw [hm] at this; cases this
+
 /-- **Plans**: plan `id` differs after a message only if the message was an accepted `planStatus id`
 from the plan's provider, or an accepted `planCreate` (by a registered provider) that issued `id`
 as the next free plan id. -/
